@@ -40,21 +40,23 @@ type Proc struct {
 }
 
 type Sys struct {
-	E           *Engine
-	Procs       []*Proc
-	procPools   map[string][]int
-	Heap        []*Term
-	T           int
-	Constraints []*Term
-	Choice      []*Term
-	Arm         []*Term
-	Peer        []*Term
-	MaxGen      int
-	Trace       []StepInfo
-	StepPaths   int
-	Verbose     bool
-	TotalPaths  int
-	TotalInstr  int
+	E              *Engine
+	Procs          []*Proc
+	procPools      map[string][]int
+	Heap           []*Term
+	T              int
+	Constraints    []*Term
+	Choice         []*Term
+	Arm            []*Term
+	Peer           []*Term
+	MaxGen         int
+	Trace          []StepInfo
+	StepPaths      int
+	Verbose        bool
+	SymmetricPeers bool
+	OneHot         bool
+	TotalPaths     int
+	TotalInstr     int
 }
 
 // StepInfo keeps what is needed to decode a model into a schedule.
@@ -406,8 +408,15 @@ func (s *Sys) sendVariants(pr *Proc, ch *Term, val Value, finish func(q *Path), 
 			pick := B.False
 			var peers []PeerInfo
 			for _, w := range ws {
+				var c *Term
+				if s.SymmetricPeers {
+					// receivers parked at the same receive are interchangeable: hand the
+					// value to the lowest-numbered one (symmetry reduction, DESIGN 2.4)
+					c = B.And(w.Cond, B.Not(any))
+				} else {
+					c = B.And(w.Cond, B.Eq(peerVar, B.BV(8, uint64(w.Pid))))
+				}
 				any = B.Or(any, w.Cond)
-				c := B.And(w.Cond, B.Eq(peerVar, B.BV(8, uint64(w.Pid))))
 				pick = B.Or(pick, c)
 				peers = append(peers, PeerInfo{Pid: w.Pid, Cond: c})
 			}
@@ -598,6 +607,8 @@ func (s *Sys) Start(entry *ssa.Function, args []Value) {
 func (s *Sys) absorb(paths []*Path) {
 	e := s.E
 	B := e.B
+	B.Phase = "absorb-heap"
+	defer func() { B.Phase = "" }()
 	// heap merge: group by value
 	type gv struct {
 		val *Term
@@ -654,6 +665,7 @@ func (s *Sys) absorb(paths []*Path) {
 		s.Heap[i] = cur
 	}
 	// process configurations
+	B.Phase = "absorb-cfg"
 	for _, p := range paths {
 		for _, rec := range p.Parks {
 			pr := s.Procs[rec.Pid]
@@ -759,6 +771,7 @@ func (s *Sys) Step() {
 		g *Term
 	}
 	var firings []firing
+	B.Phase = "variants"
 	for _, pr := range s.Procs {
 		pick := B.Eq(choice, B.BV(8, uint64(pr.Pid)))
 		if pr.Native != nil {
@@ -804,7 +817,9 @@ func (s *Sys) Step() {
 	}
 	pre := e.done
 	e.done = nil
+	B.Phase = "exec"
 	done := e.RunAll()
+	B.Phase = ""
 	done = append(done, pre...)
 	s.StepPaths = len(done)
 	s.TotalPaths += len(done)
@@ -821,6 +836,26 @@ func (s *Sys) Step() {
 		}
 	}
 	s.Constraints = append(s.Constraints, B.Implies(anyEn, fired))
+	if s.OneHot {
+		// redundant (implied) lemmas: a process is at no more than one location
+		for _, pr := range s.Procs {
+			var gs []*Term
+			for _, k := range pr.Order {
+				if c := pr.Configs[k]; c != nil {
+					gs = append(gs, c.G)
+				}
+			}
+			gs = append(gs, pr.Exited)
+			for i := range gs {
+				for j := i + 1; j < len(gs); j++ {
+					x := B.Not(B.And(gs[i], gs[j]))
+					if !x.IsTrue() {
+						s.Constraints = append(s.Constraints, x)
+					}
+				}
+			}
+		}
+	}
 	s.Trace = append(s.Trace, info)
 	s.T++
 	if s.Verbose {
